@@ -250,11 +250,10 @@ def cdsFlags (c : CDS) (table : Int) : RT (Nat × Bool × Bool) := do
     | f :: _ => pure f
     | [] => throw (.internal "StopIteration")
   let codonStart := frame.value + 1
-  -- `first_codon is not None and first_codon.is_start_codon_in…` (/repo 7b698bf; before that repair `next()` let
-  -- StopIteration escape on a codon-less CDS — F-C19e): `none` = no first codon = "has no start codon"
-  let si ← match ← liftR (hasStartCodonIn c table) with
-    | none => pure true
-    | some b => pure (!b)
+  -- `not transcript.cds.has_start_codon_in_specific_translation_table(table)`; a CDS without a complete codon
+  -- "has no start codon" (/repo 7b698bf; before that repair StopIteration escaped there — F-C19e)
+  let hasStart ← liftR (hasStartCodonIn c table)
+  let si := !hasStart
   let ei ← (if (c.loc.len : Int) % 3 ≠ codonStart - 1 then pure true
             else do let v ← liftR (hasValidStop c); pure (!v))
   pure (codonStart.toNat, si, ei)
@@ -312,6 +311,16 @@ def tblGene (g : Gene) (genome : Option Str) (table : Int) : RT (List Skel) := d
   pure (geneF :: rest)
 
 /-! ### `collection_to_tbl` -/
+
+/-- MODEL SWITCH for F-C17a.  `false` = the code as it is (`if random_seed:` — Python truthiness, seed 0 counts as
+    "no seed"); `true` = the proposed repair `if random_seed is not None:`.  Flip when the fix lands in /repo. -/
+def seedRepaired : Bool := false
+
+/-- is `random.seed(random_seed)` executed? -/
+def seedApplied (repaired : Bool) (seed : Option Int) : Bool :=
+  match seed with
+  | none => false
+  | some s => repaired || s != 0
 
 /-- the locus tags handed to the genes: `locus_tag_offset += jump; f"{prefix}_{locus_tag_offset}"` -/
 def locusTagsFrom (pre : Str) (step : Int) : Int → Nat → List Str
